@@ -17,6 +17,7 @@ func init() {
 		Quick:      all("./proto", "./internal/impl", "./internal/order", "./encoding/protojson", "./encoding/prototext"),
 		Thorough:   []ConfigLoad{{"default", []string{"./..."}}, {"reflect", []string{"./proto"}}},
 		Run: func(c *Ctx) {
+			c.ruleEqualExtSymmetry("R-EQUAL-EXT-SYMMETRY")
 			c.ruleMergeDesc("R-MERGE-DESC")
 			c.ruleConsumeTagRange("R-CONSUMETAG-RANGE", []string{"internal/impl", "proto"}, 4)
 			c.ruleReflEncParity("R-REFL-ENC-PARITY")
